@@ -46,6 +46,10 @@ Here is a semantic property that the library is supposed to satisfy (also in {ro
     suite = f"""the pinned test suite still passes. Check it exactly like this (takes ~1 minute):
         cd {wt} && export GOFLAGS=-mod=mod GOPROXY=off GOSUMDB=off && go test -mod=mod -json -vet=off -count=1 -timeout 25m ./... > {root}/{pid}.testlog.json 2>&1 ; python3 {root}/baseline_check.py {root}/{pid}.testlog.json
       It must print "baseline tests: 140 passing now: 140". (Some test binaries abort at SCTP tests in this sandbox; that is expected and already accounted for by the script.)"""
+    earlier_n = []
+    for mf in sorted(glob.glob(f'/verif/seeded/{pid}n*/meta.json')):
+        m = json.load(open(mf))
+        if m.get('what'): earlier_n.append('  - ' + m['what'])
     if mode == 'break':
         body = f"""YOUR TASK: produce ONE realistic change (a plausible bug a maintainer could introduce: a refactoring slip, an off-by-one, a dropped guard, a wrong constant, swapped arguments, a missing copy/lock, an optimisation that is not quite equivalent, ...) to the library's non-test Go source under {wt}/diam/ that BREAKS this property while
   (a) the module still compiles: `cd {wt} && go build ./... `
@@ -70,6 +74,10 @@ Then leave the worktree with your change still applied and reply with a short su
 """
     else:
         body = f"""YOUR TASK: produce ONE realistic change to the library's non-test Go source under {wt}/diam/ that a maintainer could plausibly make to the code this property is anchored in and that PRESERVES the property: the library behaves differently or is structured differently afterwards, but the property as stated still holds for every input, schedule and history. Make it a change that a careless or over-fitted checker of this property might wrongly flag. Good candidates: a refactoring that moves or renames internal (unexported) helpers or fields or changes their signatures; an optimisation that is genuinely equivalent; a different but still correct locking or buffering scheme; a changed internal buffer size or other tunable; changed error message texts or error types where the property only demands "an error"; a different but permitted order of independent operations; extra validation that rejects only input the property already says must be rejected; an added feature or option whose default keeps the old behaviour; stricter or more defensive copying. Prefer a change that touches the mechanism the property depends on (not a comment or a cosmetic rename), and say in your notes why the property still holds afterwards (a short argument per clause). Do NOT change exported API signatures or remove exported identifiers.
+
+Earlier property-preserving proposals for this property (choose a DIFFERENT part of the mechanism or a different kind of change; do not repeat these):
+{chr(10).join(earlier_n) if earlier_n else '  (none)'}
+
   (a) the module still compiles: `cd {wt} && go build ./... `
   (b) {suite}
 Do not edit any *_test.go file that already exists, do not change go.mod, and keep the change moderate (up to a few dozen lines, one to three files).
